@@ -97,7 +97,7 @@ def parse_simple(content):
             continue
         if ln[:1] == b"[":
             cur = ln[1:ln.index(b"]")]
-        elif b"=" in ln:
+        elif b"=" in ln and ln[:1] != b"=":      # (a line that begins with the delimiter has no key: it is passed over)
             k, v = ln.split(b"=", 1)
             out.setdefault((cur, k), v)
     return out
